@@ -409,6 +409,13 @@ func main() {
 						break
 					}
 				}
+				// through ConsoleWriter (which renders the first event of what it is given): a single truncated
+				// event must be refused, not rendered from the part that arrived
+				if inside && len(bounds) == 1 {
+					if r3 := throughConsole(stream[:cut]); r3.panic == "" && r3.err == nil {
+						c.r.Violation("", "prefix/console-accepts", fmt.Sprintf("prefix of %d/%d bytes ends inside the event, yet ConsoleWriter.Write returned no error and printed %q", cut, len(stream), consoleOut.String()), fmt.Sprintf("%x cut=%d", stream, cut))
+					}
+				}
 				if inside && res.err == nil {
 					c.r.Violation("", "prefix/no-error", fmt.Sprintf("prefix of %d/%d bytes ends inside event %d but no error was reported (output %q)", cut, len(stream), complete, res.out), fmt.Sprintf("%x cut=%d", stream, cut))
 				}
